@@ -1,0 +1,35 @@
+//go:build verif
+
+package server
+
+import (
+	"github.com/inbucket/inbucket/v3/pkg/message"
+	"github.com/inbucket/inbucket/v3/pkg/policy"
+	"github.com/inbucket/inbucket/v3/pkg/server/web"
+	"github.com/inbucket/inbucket/v3/pkg/storage"
+)
+
+// Verification hooks (add-only, build tag `verif`).
+
+// VerifAssembly lists, component by component, the shared objects an assembled *Services was wired with, so that a
+// harness can dump the assembled store (cross-check of what the network interfaces report) and see who shares what.
+type VerifAssembly struct {
+	WebManager   message.Manager    // the manager the REST / web handlers use
+	SMTPManager  message.Manager    // the manager the SMTP server delivers through
+	SMTPPolicy   *policy.Addressing // the address policy of the SMTP server
+	POP3Store    storage.Store      // the store POP3 sessions read
+	ScannerStore storage.Store      // the store the retention scanner scans
+}
+
+// VerifAssembly reports the wiring of s.
+func (s *Services) VerifAssembly() VerifAssembly {
+	wm, _, _ := web.VerifWiring()
+	sm, sp, _ := s.SMTPServer.VerifWiring()
+	return VerifAssembly{
+		WebManager:   wm,
+		SMTPManager:  sm,
+		SMTPPolicy:   sp,
+		POP3Store:    s.POP3Server.VerifStore(),
+		ScannerStore: s.RetentionScanner.VerifStore(),
+	}
+}
